@@ -85,7 +85,15 @@ func checkVariant(sc *bw.Scenario, w *world, cl *closure, res *vresult, out *sim
 					cls = "no-allowed-version-accepted"
 				}
 			}
-			out.Violate("C17", "expected-error-missing", cls, fmt.Sprintf("variant %d: the model expects an error (%s) but no Add call reported one", vi, strings.Join(cl.errs, "; ")))
+			props := []string{"C17"}
+			if cls == "error-not-reported" {
+				// an error of the builder's own (a relative address that climbs out of its package,
+				// an error diagnostic of a finder) that reaches no caller is a swallowed failure
+				props = append(props, "C12")
+			}
+			for _, prop := range props {
+				out.Violate(prop, "expected-error-missing", cls, fmt.Sprintf("variant %d: the model expects an error (%s) but no Add call reported one", vi, strings.Join(cl.errs, "; ")))
+			}
 		}
 		if !expectErr && (res.anyErr || res.bundle == nil) {
 			var ds []string
